@@ -9,7 +9,7 @@ use serde::{Deserialize, Serialize};
 use std::io::{Read, Write};
 use std::panic::{catch_unwind, AssertUnwindSafe};
 use std::str::FromStr;
-use std::sync::mpsc;
+use std::sync::{Condvar, Mutex};
 
 #[derive(Clone, Copy, Debug, PartialEq, Eq, Serialize, Deserialize)]
 pub enum Mode {
@@ -54,6 +54,10 @@ pub struct Obs {
     pub text: Option<String>,
     /// the worker thread died serving this request
     pub died: bool,
+    /// heap and stack address seen by this request (simulator self-check only: proves that the
+    /// layout is a function of the plan, and that displacement moves it; never part of the oracle)
+    #[serde(default)]
+    pub layout: String,
 }
 
 pub fn expand_key(k: &Key) -> (&'static str, String) {
@@ -69,7 +73,15 @@ pub fn expand_key(k: &Key) -> (&'static str, String) {
     }
 }
 
+fn layout_probe() -> String {
+    let b = Box::new(0u8);
+    let heap = &*b as *const u8 as usize;
+    let stack = &heap as *const usize as usize;
+    format!("{heap:x}:{stack:x}")
+}
+
 fn observe(seq: usize, w: usize, gen: usize, kidx: usize, key: &Key, mode: Mode, dump: bool) -> Obs {
+    let layout = layout_probe();
     let (class, text) = match mode {
         Mode::Catch => match catch_unwind(AssertUnwindSafe(|| expand_key(key))) {
             Ok(r) => r,
@@ -88,6 +100,7 @@ fn observe(seq: usize, w: usize, gen: usize, kidx: usize, key: &Key, mode: Mode,
         len: text.len(),
         text: if dump { Some(text) } else { None },
         died: false,
+        layout,
     }
 }
 
@@ -103,8 +116,37 @@ fn burn_stack(bytes: usize, f: &mut dyn FnMut()) {
     std::hint::black_box(&mut pad);
 }
 
+/// One baton slot per worker, leaked for the life of the process. Requests and replies move
+/// through a futex-based Mutex/Condvar pair: unlike std's mpsc channels this allocates nothing
+/// and frees nothing at timing-dependent moments, so that the heap layout of the process — which
+/// the code under simulation could observe through pointer values — is a function of the plan alone.
+struct Slot {
+    m: Mutex<SlotState>,
+    cv: Condvar,
+}
+
+#[derive(Default)]
+struct SlotState {
+    req: Option<(usize, usize, Mode)>,
+    reply: Option<Obs>,
+    quit: bool,
+    ready: bool,
+}
+
+impl Slot {
+    fn new() -> &'static Slot {
+        Box::leak(Box::new(Slot {
+            m: Mutex::new(SlotState::default()),
+            cv: Condvar::new(),
+        }))
+    }
+    fn lock(&self) -> std::sync::MutexGuard<'_, SlotState> {
+        self.m.lock().unwrap_or_else(|e| e.into_inner())
+    }
+}
+
 struct DeathNote {
-    tx: mpsc::Sender<Obs>,
+    slot: &'static Slot,
     seq: usize,
     w: usize,
     gen: usize,
@@ -115,7 +157,8 @@ struct DeathNote {
 impl Drop for DeathNote {
     fn drop(&mut self) {
         if self.armed {
-            let _ = self.tx.send(Obs {
+            let mut g = self.slot.lock();
+            g.reply = Some(Obs {
                 seq: self.seq,
                 w: self.w,
                 gen: self.gen,
@@ -125,43 +168,78 @@ impl Drop for DeathNote {
                 len: 0,
                 text: None,
                 died: true,
+                layout: String::new(),
             });
+            drop(g);
+            self.slot.cv.notify_all();
         }
     }
 }
 
 struct Worker {
-    tx: mpsc::Sender<(usize, usize, Mode)>,
+    slot: &'static Slot,
     handle: std::thread::JoinHandle<()>,
     gen: usize,
 }
 
-fn spawn_worker(w: usize, gen: usize, sched: &std::sync::Arc<Schedule>, reply: mpsc::Sender<Obs>) -> Worker {
-    let (tx, rx) = mpsc::channel::<(usize, usize, Mode)>();
+fn spawn_worker(w: usize, gen: usize, slot: &'static Slot, sched: &std::sync::Arc<Schedule>) -> Worker {
+    {
+        let mut g = slot.lock();
+        *g = SlotState::default();
+    }
     let s = sched.clone();
     let handle = std::thread::Builder::new()
         .name(format!("worker-{w}-{gen}"))
         .stack_size(s.worker_stack_kb.max(256) * 1024)
         .spawn(move || {
-            let mut body = || {
-                while let Ok((seq, k, mode)) = rx.recv() {
-                    let mut note = DeathNote {
-                        tx: reply.clone(),
-                        seq,
-                        w,
-                        gen,
-                        k,
-                        armed: true,
-                    };
-                    let o = observe(seq, w, gen, k, &s.keys[k], mode, s.dump_text);
-                    note.armed = false;
-                    let _ = reply.send(o);
+            // touch the allocator (creates this thread's arena) before the simulator goes on, so that the
+            // order of the process's mmap calls — hence every address — is a function of the plan alone
+            let warm: Vec<u8> = Vec::with_capacity(64);
+            drop(std::hint::black_box(warm));
+            {
+                let mut g = slot.lock();
+                g.ready = true;
+            }
+            slot.cv.notify_all();
+            let mut body = || loop {
+                let (seq, k, mode) = {
+                    let mut g = slot.lock();
+                    loop {
+                        if g.quit {
+                            return;
+                        }
+                        if let Some(r) = g.req.take() {
+                            break r;
+                        }
+                        g = slot.cv.wait(g).unwrap_or_else(|e| e.into_inner());
+                    }
+                };
+                let mut note = DeathNote {
+                    slot,
+                    seq,
+                    w,
+                    gen,
+                    k,
+                    armed: true,
+                };
+                let o = observe(seq, w, gen, k, &s.keys[k], mode, s.dump_text);
+                note.armed = false;
+                {
+                    let mut g = slot.lock();
+                    g.reply = Some(o);
                 }
+                slot.cv.notify_all();
             };
             burn_stack(s.stack_pad, &mut body);
         })
         .expect("spawn worker");
-    Worker { tx, handle, gen }
+    {
+        let mut g = slot.lock();
+        while !g.ready {
+            g = slot.cv.wait(g).unwrap_or_else(|e| e.into_inner());
+        }
+    }
+    Worker { slot, handle, gen }
 }
 
 pub fn run_schedule(sched: Schedule) -> Vec<Obs> {
@@ -172,26 +250,41 @@ pub fn run_schedule(sched: Schedule) -> Vec<Obs> {
         std::mem::forget(v);
     }
     let sched = std::sync::Arc::new(sched);
-    let (reply_tx, reply_rx) = mpsc::channel::<Obs>();
     let nw = sched.workers.max(1);
-    let mut workers: Vec<Worker> = (0..nw).map(|w| spawn_worker(w, 0, &sched, reply_tx.clone())).collect();
+    let slots: Vec<&'static Slot> = (0..nw).map(|_| Slot::new()).collect();
+    let mut workers: Vec<Option<Worker>> = (0..nw).map(|w| Some(spawn_worker(w, 0, slots[w], &sched))).collect();
     let mut out = Vec::with_capacity(sched.requests.len());
     for (seq, r) in sched.requests.iter().enumerate() {
         let w = r.w % nw;
+        let slot = workers[w].as_ref().unwrap().slot;
         // the baton: exactly one worker runs, the simulator waits for its reply
-        workers[w].tx.send((seq, r.k, r.mode)).expect("worker alive");
-        let o = reply_rx.recv().expect("reply");
+        let o = {
+            let mut g = slot.lock();
+            g.req = Some((seq, r.k, r.mode));
+            slot.cv.notify_all();
+            loop {
+                if let Some(o) = g.reply.take() {
+                    break o;
+                }
+                g = slot.cv.wait(g).unwrap_or_else(|e| e.into_inner());
+            }
+        };
         if o.died {
-            // the slot's thread is gone (thread-locals destroyed): replace it
-            let gen = workers[w].gen + 1;
-            let old = std::mem::replace(&mut workers[w], spawn_worker(w, gen, &sched, reply_tx.clone()));
-            drop(old.tx);
+            // the slot's thread is gone (thread-locals destroyed). Wait until it has really exited
+            // (stack unmapped, arena released), then create its replacement.
+            let old = workers[w].take().unwrap();
+            let gen = old.gen + 1;
             let _ = old.handle.join();
+            workers[w] = Some(spawn_worker(w, gen, slot, &sched));
         }
         out.push(o);
     }
-    for w in workers {
-        drop(w.tx);
+    for w in workers.into_iter().flatten() {
+        {
+            let mut g = w.slot.lock();
+            g.quit = true;
+        }
+        w.slot.cv.notify_all();
         let _ = w.handle.join();
     }
     out
